@@ -631,3 +631,108 @@ pub use self::{
     repay as lending_account_repay, set_freeze as marginfi_account_set_freeze,
     start_flashloan as lending_account_start_flashloan, withdraw as lending_account_withdraw,
 };
+
+// ---------------------------------------------------------------------- fees destination / emissions
+
+pub fn withdraw_fees_permissionless(b: &BankHandle, fees_destination_account: Pubkey, amount: u64) -> Instruction {
+    build(
+        marginfi::accounts::LendingPoolWithdrawFeesPermissionless {
+            group: b.group,
+            bank: b.bank,
+            fee_vault: b.fee_vault,
+            fee_vault_authority: b.fee_vault_authority,
+            fees_destination_account,
+            token_program: b.token_program,
+        },
+        marginfi::instruction::LendingPoolWithdrawFeesPermissionless { amount },
+        with_mint(b, vec![]),
+    )
+}
+
+pub fn update_fees_destination(b: &BankHandle, admin: Pubkey, destination_account: Pubkey) -> Instruction {
+    build(
+        marginfi::accounts::LendingPoolUpdateFeesDestinationAccount { group: b.group, bank: b.bank, admin, destination_account },
+        marginfi::instruction::LendingPoolUpdateFeesDestinationAccount {},
+        vec![],
+    )
+}
+
+pub fn emissions_auth_pda(bank: &Pubkey, mint: &Pubkey) -> (Pubkey, u8) {
+    Pubkey::find_program_address(
+        &[marginfi_type_crate::constants::EMISSIONS_AUTH_SEED.as_bytes(), bank.as_ref(), mint.as_ref()],
+        &marginfi::ID,
+    )
+}
+pub fn emissions_vault_pda(bank: &Pubkey, mint: &Pubkey) -> (Pubkey, u8) {
+    Pubkey::find_program_address(
+        &[marginfi_type_crate::constants::EMISSIONS_TOKEN_ACCOUNT_SEED.as_bytes(), bank.as_ref(), mint.as_ref()],
+        &marginfi::ID,
+    )
+}
+
+pub fn settle_emissions(b: &BankHandle, marginfi_account: Pubkey) -> Instruction {
+    build(
+        marginfi::accounts::LendingAccountSettleEmissions { marginfi_account, bank: b.bank },
+        marginfi::instruction::LendingAccountSettleEmissions {},
+        vec![],
+    )
+}
+
+#[allow(clippy::too_many_arguments)]
+pub fn withdraw_emissions(
+    b: &BankHandle,
+    marginfi_account: Pubkey,
+    authority: Pubkey,
+    emissions_mint: Pubkey,
+    emissions_vault: Pubkey,
+    destination_account: Pubkey,
+    token_program: Pubkey,
+) -> Instruction {
+    build(
+        marginfi::accounts::LendingAccountWithdrawEmissions {
+            group: b.group,
+            marginfi_account,
+            authority,
+            bank: b.bank,
+            emissions_mint,
+            emissions_auth: emissions_auth_pda(&b.bank, &emissions_mint).0,
+            emissions_vault,
+            destination_account,
+            token_program,
+        },
+        marginfi::instruction::LendingAccountWithdrawEmissions {},
+        vec![],
+    )
+}
+
+pub fn withdraw_emissions_permissionless(
+    b: &BankHandle,
+    marginfi_account: Pubkey,
+    emissions_mint: Pubkey,
+    emissions_vault: Pubkey,
+    destination_account: Pubkey,
+    token_program: Pubkey,
+) -> Instruction {
+    build(
+        marginfi::accounts::LendingAccountWithdrawEmissionsPermissionless {
+            group: b.group,
+            marginfi_account,
+            bank: b.bank,
+            emissions_mint,
+            emissions_auth: emissions_auth_pda(&b.bank, &emissions_mint).0,
+            emissions_vault,
+            destination_account,
+            token_program,
+        },
+        marginfi::instruction::LendingAccountWithdrawEmissionsPermissionless {},
+        vec![],
+    )
+}
+
+pub fn update_emissions_destination(marginfi_account: Pubkey, authority: Pubkey, destination_account: Pubkey) -> Instruction {
+    build(
+        marginfi::accounts::MarginfiAccountUpdateEmissionsDestinationAccount { marginfi_account, authority, destination_account },
+        marginfi::instruction::MarginfiAccountUpdateEmissionsDestinationAccount {},
+        vec![],
+    )
+}
